@@ -364,6 +364,9 @@ func checkC08(rc *Run) error {
 			M{"machine": "Eval", "concrete": M{"expr": ym[0], "input_yaml": ym[1]}, "expected": "document unchanged", "observed": "snapshot of the node tree differs", "kind": "document-edited"})
 	}
 	rc.Set("yaml_pool_evaluations", yamlRuns)
+	if err := validateHandlerSteps(rc, g, rc.Pick(40, 20), rc.ID); err != nil {
+		return err
+	}
 	rc.Set("states", g.TLC.Distinct)
 	rc.Set("transitions", g.TLC.Generated)
 	rc.Set("traces_validated_against_impl", compared)
